@@ -376,6 +376,13 @@ def gen_cases(tier, seed, i, n):
                     if k % n == i:
                         yield k, {"group": gts if order == 0 else gts[::-1], "crossed": crossed}
                     k += 1
+    # wide grouping factors: more cells than a signed / unsigned byte counts (12 x 12 = 144, 16 x 16 = 256)
+    for e in ("1", "x", "0 + x", "0 + s"):
+        for g in ("g:g2", "g/g2", "g2:C(k)"):
+            for dims in ((12, 12), (16, 16)):
+                if k % n == i:
+                    yield k, {"group": [{"effect": e, "grouping": g}], "crossed": True, "wide": list(dims)}
+                k += 1
     rng = random.Random(seed * 1000003 + i * 13 + 5)
     nrand = (1600 if tier == "quick" else 30000) // n
     for j in range(nrand):
@@ -403,6 +410,10 @@ def finish(case, k, seed):
     case["reps"] = r.choice([3, 4])
     if any(a in g["effect"] for g in case["group"] for a in ("bs(", "poly(")):
         case["reps"] = 12
+    if case.get("wide"):
+        case["levels"]["g"], case["levels"]["g2"] = case["wide"]
+        case["levels"]["k"], case["levels"]["s"] = 6, 2
+        case["reps"] = 2
     return case
 
 
